@@ -1073,18 +1073,25 @@ def _objects(d, inobj=0):
 
 
 def ctor_feats(doc, style):
-    """input shape of a constructor call: the top constructor; `elems` = SQL kinds of the elements of the (first) array
-    holding more than one kind, else 'uniform'/'none'; where NULL-valued pairs sit (in a call that is not an argument of
+    """input shape of a constructor call: the top constructor; `elems` = how mixed the SQL kinds of the elements of its
+    arrays are (none < uniform < dec+int < objmix < hetero, the worst array counts); where NULL-valued pairs sit (in a call that is not an argument of
     another OBJECT_CONSTRUCT = top / in one that is = nested); whether some OBJECT_CONSTRUCT call ends up with no pair
     at all (no argument, or -- without KEEP_NULL -- only NULL values)"""
     top = "array" if isinstance(doc, list) else "object"
     elems = "none"
     for a in _arrays(doc):
-        kinds = sorted({_sqlkind(x) for x in a if x is not None})
-        if len(kinds) > 1:
-            elems = "+".join(kinds)
-            break
-        elems = "uniform"
+        kinds = {_sqlkind(x) for x in a if x is not None}
+        if len(kinds) <= 1:
+            e = "uniform"
+        elif kinds == {"dec", "int"}:
+            e = "dec+int"
+        elif "obj" in kinds and kinds <= {"obj", "bool", "int", "dec", "earr"}:
+            e = "objmix"  # an object next to non-string scalars / an empty array: the engine can hold them as JSON values
+        else:
+            e = "hetero"
+        rank = ["none", "uniform", "dec+int", "objmix", "hetero"]
+        if rank.index(e) > rank.index(elems):
+            elems = e
     nullelem = any(x is None for a in _arrays(doc) for x in a)
     nulltop = any(v is None for o, dp in _objects(doc) for v in o.values() if dp == 0)
     nullnested = any(v is None for o, dp in _objects(doc) for v in o.values() if dp > 0)
@@ -1098,21 +1105,20 @@ def ctor_feats(doc, style):
 
 
 def ctor_cause(cf, style):
-    """the one constructor-shape feature used in class keys, by priority: an OBJECT_CONSTRUCT left without any pair;
-    an array whose elements have different SQL types (apart: integers with decimals 'dec+int', an empty array with an
-    object 'earr+obj'); NULL-valued pairs in an OBJECT_CONSTRUCT that is / is not an argument of another one; else plain"""
+    """the one constructor-shape feature used in class keys, by priority: an array whose elements have different SQL
+    types ('hetero'; apart, lower down: integers with decimals 'dec+int', an object next to non-string scalars
+    'objmix'); an OBJECT_CONSTRUCT left without any pair; NULL-valued pairs in an OBJECT_CONSTRUCT that is / is not an
+    argument of another one; else plain"""
+    if cf["elems"] == "hetero":
+        return "hetero"
     if cf["nopair"] == "yes" and style == "oc":
         return "nopair"
-    if cf["elems"] == "earr+obj":
-        return "earr+obj"
-    if cf["elems"] not in ("none", "uniform", "dec+int"):
-        return "hetero"
     if cf["nullpair"] in ("nested", "top+nested"):
         return "nullpair.nested"
     if cf["nullpair"] == "top":
         return "nullpair.top"
-    if cf["elems"] == "dec+int":
-        return "dec+int"
+    if cf["elems"] in ("objmix", "dec+int"):
+        return cf["elems"]
     return "plain"
 
 
